@@ -36,7 +36,7 @@ use easy_ml::matrices::Matrix;
 use easy_ml::numeric::extra::{Cos, Exp, Ln, Pow, Sin, Sqrt};
 use easy_ml::tensors::indexing::TensorAccess;
 use easy_ml::tensors::views::{TensorRange, TensorRename, TensorView};
-use easy_ml::tensors::Tensor;
+use easy_ml::tensors::{Dimension, Tensor};
 type R<'a> = Record<'a, f64>;
 type RT<'a> = RecordTensor<'a, f64, Tensor<(f64, usize), 2>, 2>;
 type RM<'a> = RecordMatrix<'a, f64, Matrix<(f64, usize)>>;
@@ -534,6 +534,113 @@ def three_step_rows(repo):
     return rows, unknown
 
 
+# ------------------------------------------------------------------------------------------
+# view-returning convenience methods: the view borrows `self` only, never its other arguments
+# ------------------------------------------------------------------------------------------
+# Every `pub fn` of Tensor / TensorView / Matrix / MatrixView / RecordTensor / RecordMatrix with a
+# `&self` / `&mut self` receiver whose result borrows (its type mentions `&`, a lifetime, or a partition
+# type) and which takes further reference / slice / array arguments (dimension names, (name, range)
+# pairs, index arrays).  Documented: the returned view borrows the container; the names / ranges are
+# read once.  Per method: a must-compile program in which every non-self argument lives in an inner
+# scope that ends before the view is used, and a must-not-compile program in which the view outlives
+# the container.  Synthesized from the signatures; an argument type outside the vocabulary below is
+# reported.
+
+VIEW_FILES = ["src/tensors/mod.rs", "src/tensors/views.rs", "src/matrices/mod.rs", "src/matrices/views.rs", M]
+VIEW_OWNERS = {
+    "Tensor": ("Tensor<f64, 2>", "Tensor::from([(\"r\", 2), (\"c\", 2)], vec![1.0, 2.0, 3.0, 4.0])", False),
+    "TensorView": ("TensorView<f64, Tensor<f64, 2>, 2>",
+                   "TensorView::from(Tensor::from([(\"r\", 2), (\"c\", 2)], vec![1.0, 2.0, 3.0, 4.0]))", False),
+    "Matrix": ("Matrix<f64>", "Matrix::from(vec![vec![1.0, 2.0], vec![3.0, 4.0]])", False),
+    "MatrixView": ("MatrixView<f64, Matrix<f64>>", "MatrixView::from(Matrix::from(vec![vec![1.0, 2.0], vec![3.0, 4.0]]))", False),
+    "RecordTensor": ("RT<'static>", "RecordTensor::constants(Tensor::from([(\"r\", 2), (\"c\", 2)], vec![1.0, 2.0, 3.0, 4.0]))", True),
+    "RecordMatrix": ("RM<'static>", "RecordMatrix::constants(Matrix::from(vec![vec![1.0, 2.0], vec![3.0, 4.0]]))", True),
+}
+# argument vocabulary: type pattern -> (statements placed in the inner scope, expression)
+VIEW_ARGS = [
+    (r"&\s*\[Dimension\]", ("let names: Vec<Dimension> = vec![\"c\"];", "&names")),
+    (r"\[Dimension;\s*D\]", ("let names_array: [Dimension; 2] = [\"c\", \"r\"];", "names_array")),
+    (r"\[\(Dimension,\s*R\);\s*P\]", ("let ranges = [(\"r\", 0..1)];", "ranges")),
+    (r"\[\(Dimension,\s*usize\);\s*1\]", ("let picked = [(\"r\", 0)];", "picked")),
+    (r"\[\(usize,\s*Dimension\);\s*1\]", ("let extra = [(0, \"x\")];", "extra")),
+    (r"&\s*\[(Row|Column|usize)\]", ("let cuts: Vec<usize> = vec![1];", "&cuts")),
+    (r"\[usize;\s*D\]", ("let index = [0, 0];", "index")),
+    (r"(Row|Column|usize)", ("", "1")),
+]
+
+
+def scan_view_methods(repo):
+    out = []
+    for rel in VIEW_FILES:
+        path = os.path.join(repo, rel)
+        if not os.path.exists(path):
+            continue
+        t = gen_structs.remove_test_modules_and_fn_bodies(gen_structs.strip_comments_and_strings(open(path).read()))
+        headers = [(m.start(), m.group(1)) for m in re.finditer(r"\bimpl\s*<[^{;]*?>\s*(\w+)\s*<", t)]
+        for m in re.finditer(r"pub fn\s+(\w+)\s*(<[^(]*>)?\s*\(", t):
+            i = m.end() - 1
+            e = gen_structs.match_close(t, i, "(", ")")
+            params = [re.sub(r"\s+", " ", p).strip() for p in gen_structs.split_top(t[i + 1:e]) if p.strip()]
+            k, depth = e + 1, 0
+            while k < len(t) and not (t[k] in "{;" and depth == 0):
+                if t[k] in "<([":
+                    depth += 1
+                elif t[k] in ")]" or (t[k] == ">" and t[k - 1] != "-"):
+                    depth -= 1
+                k += 1
+            ret = re.sub(r"\s+", " ", t[e + 1:k]).strip().split(" where ")[0]
+            if not params or not re.fullmatch(r"&(\'\w+ )?(mut )?self", params[0]):
+                continue
+            borrows = bool(re.search(r"&|'\w|MatrixPart|MatrixQuadrants", ret))
+            others = [p.split(":", 1) for p in params[1:]]
+            if not borrows or not any(("&" in ty or "[" in ty) for _n, ty in others):
+                continue
+            owner = None
+            for pos, name in headers:
+                if pos < m.start():
+                    owner = name
+            if owner not in VIEW_OWNERS:
+                continue
+            if VIEW_OWNERS[owner][2] and not re.search(r"TensorAccess|TensorView|MatrixView", ret):
+                continue      # record containers: only their view / accessor methods (the rest is in ENTRIES)
+            out.append({"file": rel, "name": m.group(1), "owner": owner, "params": params, "ret": ret,
+                        "line": t[:m.start()].count("\n") + 1})
+    return out
+
+
+def view_rows(repo):
+    rows, unknown = [], []
+    for sig in scan_view_methods(repo):
+        oty, ctor, _is_record = VIEW_OWNERS[sig["owner"]]
+        mutable = "mut " in sig["params"][0]
+        setup, args, ok = [], [], True
+        for p in sig["params"][1:]:
+            _n, _, ty = p.partition(":")
+            ty = re.sub(r"'\w+\s*", "", ty.strip())
+            for pat, (stmt, expr) in VIEW_ARGS:
+                if re.fullmatch(pat, ty):
+                    if stmt and stmt not in setup:
+                        setup.append(stmt)
+                    args.append(expr)
+                    break
+            else:
+                ok = False
+        if not ok:
+            unknown.append((sig["file"], f"{sig['owner']}::{sig['name']} (view-returning method; argument type not understood)"))
+            continue
+        call = f"c.{sig['name']}({', '.join(args)})"
+        recv_ty = f"&mut {oty}" if mutable else f"&{oty}"
+        inner = "\n        ".join(setup)
+        ok_body = (f"fn probe(c: {recv_ty}) {{\n    let view = {{\n        {inner}\n        {call}\n    }};\n"
+                   "    // the names / ranges / indexes are gone, the view is still in use\n    drop(view);\n}\nfn main() {}\n")
+        bad_body = ("fn main() {\n    let view;\n    {\n"
+                    f"        let {'mut ' if mutable else ''}owner: {oty} = {ctor};\n        let c = {'&mut owner' if mutable else '&owner'};\n"
+                    f"        {inner}\n        view = {call};\n    }}\n    drop(view);\n}}\n")
+        key = f"{sig['owner']}_{sig['name']}_{sig['line']}"
+        rows.append({"name": key, "ok": ok_body, "bad": bad_body, "sig": sig})
+    return rows, unknown
+
+
 def pid(s):
     return re.sub(r"[^A-Za-z0-9]+", "_", s).strip("_")[:140]
 
@@ -614,6 +721,11 @@ def generate(workdir, repo=None):
             emit(f"life_closure_usage_{cl['name']}_{cl['source'].split(':')[1]}",
                  f"[lifetime] documented usage of `{cl['name']}` ({cl['source']}): combine every element with a separately "
                  "created record of the same WengertList", ("compile", []), body, "lifetime.closure-usage")
+    vrows, _vunknown = view_rows(repo)
+    for vr in vrows:
+        sg = vr["sig"]
+        emit(f"life_view_args_{vr['name']}", f"[lifetime] the view returned by `{sg['owner']}::{sg['name']}` ({sg['file']}:{sg['line']}) borrows only the container: its other arguments may live in an inner scope that ends before the view is used", ("compile", []), vr["ok"], "lifetime.view-arguments")
+        emit(f"life_view_outlives_{vr['name']}", f"[lifetime] the view returned by `{sg['owner']}::{sg['name']}` cannot outlive the container", ("fail", ["E0597", "E0505", "E0716"]), vr["bad"], "lifetime.view-outlives-container")
     rows3, _unknown3 = three_step_rows(repo)
     for r3 in rows3:
         emit(f"life_three_step_{r3['name']}", "[lifetime] " + r3["rule"], ("compile", []), r3["body"], "lifetime.three-step")
@@ -727,7 +839,8 @@ def coverage(repo):
         closure_covered |= set(cl["covers"])
     closure_found = scan_closure_methods(repo)
     _rows3, unknown3 = three_step_rows(repo)
-    missing = (sorted(found - covered) + sorted(unknown) + sorted(unknown3)
+    _vrows, vunknown = view_rows(repo)
+    missing = (sorted(found - covered) + sorted(unknown) + sorted(unknown3) + sorted(vunknown)
                + sorted((f, n + " (closure parameter)") for f, n in closure_found - closure_covered))
     return missing, len(found) + len(closure_found)
 
